@@ -26,6 +26,7 @@ CSV_FAULTS = {
     "unterminated_quote_eof": b'a,b\n1,"x', "ragged_short": b"a,b,c\n1,2\n3,4,5\n", "ragged_long": b"a,b\n1,2,3,4,5\n6,7\n",
     "nul_bytes": b"a,b\n1,\x00\x00\n\x00,2\n", "lone_cr": b"a,b\r1,2\r3,4", "only_newlines": b"\n\n\n\r\n", "empty": b"", "only_header": b"a,b,c\n",
     "huge_field": b"a,b\n1," + b"x" * 200000 + b"\n", "many_columns": (b",".join(b"c%d" % i for i in range(3000)) + b"\n" + b",".join(b"1" for _ in range(3000)) + b"\n"),
+    "ragged_compensated": b"a,b,c\n1,2\n3,4,5,6\n7,8,9\n", "ragged_compensated_2": b"a,b,c\n1,2,3\n4\n5,6,7,8,9\n",
     "quote_garbage_after": b'a,b\n"x"y,2\n', "bom": b"\xef\xbb\xbfa,b\n1,2\n", "type_flip_late": b"a\n" + b"1\n" * 3000 + b"x\n",
     "int_overflow": b"a\n99999999999999999999999\n1\n", "float_weird": b"a\n1e999\n-1e999\nnan\n", "delim_only": b",,,\n,,,\n", "tabs_and_commas": b"a\tb,c\n1\t2,3\n",
 }
@@ -69,6 +70,18 @@ def run(tier):
                 if b[p["at"]] == old:
                     continue
                 out = bytes(b)
+            elif p["k"] == "delta_lie":
+                if desc.get("value_encoding") not in ("delta", "delta+bss"):
+                    continue
+                try:
+                    out, _ = pqwrite.write(dict(desc, lies={"delta.len_patch": {"stream": p["field"], "cls": p["cls"]}}))
+                except Exception:
+                    continue
+                if out == data:
+                    continue
+            elif p["cls"].startswith("fsize"):
+                off = {"fsize": 0, "fsize_m1": 1, "fsize_m4": 4, "fsize_m7": 7, "fsize_m8": 8, "fsize_m9": 9}[p["cls"]]
+                out, _ = pqwrite.write(dict(desc, lies={"file.footer_len": len(data) - off}))
             else:
                 # a lie: rewrite the field consistently in the thrift structure by re-encoding the file
                 base_val = {"file.num_rows": 5, "file.footer_len": 100, "file.version": 1, "schema.num_children": len(desc["columns"]),
